@@ -43,8 +43,10 @@ Theorem C07_one_report_per_week :
 Proof. exact one_report_per_week. Qed.
 Print Assumptions C07_one_report_per_week.
 
-(* the same with the substring premise discharged: all end times of the
-   directory's parseable count files (and W's) lie in the years 0..9999 *)
+(* the same with the substring premise discharged: the week strings of the
+   directory's parseable count files (and W) are ten bytes long
+   (in_range e := length (uploader_week e) = 10, which C09's date_roundtrip
+   proves for all days of the years 0..9999) *)
 Theorem C07_one_report_per_week_dates :
   forall (f : FS) (c : ucfg) (e0 : Z),
   let W := uploader_week e0 in
